@@ -72,6 +72,13 @@ func c06PathErrKind(err error) string {
 	return "other:" + m
 }
 
+func c06OkOr(err error) string {
+	if k := c06PathErrKind(err); k != "" {
+		return k
+	}
+	return "ok"
+}
+
 func c06EncErr(kind string) wire.Val {
 	if kind == "" {
 		return wire.Ok(wire.L())
@@ -561,6 +568,7 @@ func runC06(c *hx.Ctx) {
 	}{{"CheckPath", module.CheckPath}, {"CheckImportPath", module.CheckImportPath}, {"CheckFilePath", module.CheckFilePath}}
 
 	knownReported := map[string]int{}
+	nSamples := 0
 	onePath := func(p string, src string) {
 		accepted := false
 		for _, ck := range checks {
@@ -591,6 +599,11 @@ func runC06(c *hx.Ctx) {
 		}
 		if accepted {
 			c.Nontrivial("p:" + p)
+		}
+		if src != "exh" && nSamples < 10 {
+			nSamples++
+			c.Sample(fmt.Sprintf("%q: CheckPath=%s CheckImportPath=%s CheckFilePath=%s SplitPathVersion=(%q,%q,%v)", p,
+				c06OkOr(module.CheckPath(p)), c06OkOr(module.CheckImportPath(p)), c06OkOr(module.CheckFilePath(p)), pre, pm, ok))
 		}
 		for _, v := range c06PathOracles(p) {
 			if v.msg != "" && v.shape != "" {
